@@ -18,8 +18,10 @@
    that is still in flight is released), and packets in flight are enqueued in the order in which the trace releases
    them (any other order is refuted later by FIFO; unreleased packets go last).
    Checked on every path: rel = Head(q) with the content, stream and size the packet had at its call (FIFO, exactly
-   once, intact, own writer); a refused packet is never released; the rate envelope at every release (upper bound:
-   elapsed ms rounded up, the larger rate while a SetRate is in progress, restarted at every quiescent point);
+   once, intact, own writer); a refused packet is never released; the rate envelope at every release, cumulative
+   from the start of the script as the property states it (upper bound: elapsed ms rounded up, the larger rate while a
+   SetRate is in progress; it is NOT restarted at quiescent points: the limiter runs on ticker timestamps that may lag
+   behind real time, so a bound over a later window only would not be sound);
    at quiesce while open nothing accepted is still queued (liveness). *)
 EXTENDS Pacer, Json, IOUtils
 Trace == ndJsonDeserialize(IOEnv.VERIF_TRACE)
@@ -102,8 +104,6 @@ Eff(e) ==
          /\ hi' = Max(hi, e.rate) /\ st' = SetRateStep(st, e.rate) /\ UNCHANGED <<infl, calls>>
     [] e.a = "setrate_ret" ->
          /\ env' = EnvAt(e) /\ hi' = st.rate /\ UNCHANGED <<st, infl, calls>>
-    [] e.a = "quiesce" ->
-         /\ env' = (IF st.open THEN EnvStart(st) ELSE EnvAt(e)) /\ UNCHANGED <<st, hi, infl, calls>>
     [] e.a = "close_call" -> st' = CloseStep(st) /\ env' = EnvAt(e) /\ UNCHANGED <<hi, infl, calls>>
     [] OTHER -> env' = EnvAt(e) /\ UNCHANGED <<st, hi, infl, calls>>
 
@@ -126,7 +126,7 @@ Step ==
         /\ infl' = {} /\ calls' = <<>> /\ devs' = {} /\ taint' = "" /\ l' = l + 1
      ELSE IF taint # "" THEN l' = l + 1 /\ UNCHANGED <<st, env, now, hi, infl, calls, devs, taint>>
      ELSE IF Pre(e) THEN
-        /\ Eff(e) /\ now' = (IF e.a = "quiesce" /\ st.open THEN e.t ELSE NowAt(e))
+        /\ Eff(e) /\ now' = NowAt(e)
         /\ devs' = devs \cup NewDevs(e) /\ l' = l + 1 /\ UNCHANGED taint
      ELSE IF e.a = "quiesce" THEN      \* the same on every path: a stall is a finding
         LET k == (devs \cup NewDevs(e)) \cap Known IN
